@@ -500,6 +500,8 @@ def run(cx):
     classes = c06.provider_classes(cx, mods)
     cx.guard(r1_cache, mods)
     cx.guard(r1b_loads_keys)
+    cx.current = cx.rule("C07.R2", "the effective filter set is the union over the component and all its dependents; registration reaches every filterable datasource", floor=7)
+    cx.guard(feat.check_no_module_level_one_shots, [repo.module(FL), repo.module(SF), repo.module(CF)], "filter tables and helpers")
     cx.guard(r2_union_walk)
     cx.guard(r3_prefilter)
     cx.guard(r4_refusal, classes)
